@@ -2,17 +2,12 @@
 
 CHECKS = {}
 
-CHECKS["C47"] = {
-    "pkg": "header", "files": ["header/c47_test.go"], "run": "^TestC47",
-    "quick": {"scale": 1, "shards": 1, "timeout": 300},
-    "thorough": {"scale": 10, "shards": 8, "timeout": 900, "fuzz": [{"target": "FuzzC47", "seconds": 45}]},
-    "rule": "rapid draws of (version,type,subtype over 0..255, index/counter full range with edge values) encoded "
-            "and parsed back against the documented bit layout; byte strings of length 0..64 parsed against an "
-            "independent decode with a trailing-bytes metamorphic check; the 256x256 type/subtype table enumerated. "
-            "Non-trivial: round trips with version,type < 16 (the 4-bit fields), every parse case, every valid table "
-            "entry; distinct by field tuple / header bytes.",
-    "assumptions": ["documented layout in header.go comment is the specification"],
-}
+import glob as _glob, os as _os
+
+for _f in sorted(_glob.glob(_os.path.join(_os.path.dirname(_os.path.abspath(__file__)), "conf.d", "C*.py"))):
+    _ns = {}
+    exec(compile(open(_f).read(), _f, "exec"), _ns)
+    CHECKS[_os.path.basename(_f)[:-3]] = _ns["CHECK"]
 
 HOOK_COMMITS = []
 NOT_CLAIMED = {}
